@@ -301,6 +301,43 @@ func chains(k int) fw.Family {
 	}
 }
 
+// tinyChords: arcs whose end points are 3e-7 .. 1e-4 apart (far above Epsilon): almost closed
+// ellipses drawn by one large arc, and very short arcs, on circles and (rotated) ellipses of size
+// 1 and 50, starting at 5 angles, both directions.
+func tinyChords() fw.Family {
+	type geo struct{ rx, ry, rot float64 }
+	geos := []geo{{1, 1, 0}, {50, 50, 0}, {2, 1, 0}, {2, 1, 30}, {50, 20, 90}, {60, 45, 37}}
+	gaps := []float64{3e-7, 1e-6, 1e-5, 1e-4} // central angle between the end points
+	th0s := []float64{0, 0.7, 1.5707963267948966, 3, 4.6}
+	rad := []int{len(geos), len(gaps), len(th0s), 2, 2}
+	get := func(i int64) []oracle.Subpath {
+		d := oracle.Digits(i, rad...)
+		g := geos[d[0]]
+		phi := g.rot * math.Pi / 180
+		a0, a1 := th0s[d[2]], th0s[d[2]]+gaps[d[1]]
+		sweep := d[4] == 1
+		large := d[3] == 1
+		if large != sweep { // the long way round from a1 back to a0, or the short way from a1 to a0
+			a0, a1 = a1, a0
+		}
+		p0 := oracle.EllipseAt(oracle.Pt{}, g.rx, g.ry, phi, a0)
+		p1 := oracle.EllipseAt(oracle.Pt{}, g.rx, g.ry, phi, a1)
+		return curvefam.One(oracle.MkArc(p0, g.rx, g.ry, g.rot, large, sweep, p1))
+	}
+	return fw.Family{
+		Name: "arcs with end points 3e-7..1e-4 rad apart (almost closed large arcs and very short arcs) on 6 ellipses x 5 start angles x both directions", N: oracle.Prod(rad...),
+		Check: func(i int64, r *fw.R) {
+			sps := get(i)
+			if !oracle.ArcsWellConditioned(sps) {
+				r.Outcome("skipped:arc-centre-ill-conditioned")
+				return
+			}
+			check(r, sps)
+		},
+		Desc: func(i int64) string { return curvefam.Desc(get(i)) },
+	}
+}
+
 func families(tier string) []fw.Family {
 	arcQ := func(i int64) oracle.Seg { return curvefam.Arc(i, rotsQuick) }
 	fs := []fw.Family{
@@ -310,6 +347,7 @@ func families(tier string) []fw.Family {
 		twoSubpaths([]oracle.Pt{{X: 5, Y: -4}, {X: -1, Y: 1}}),
 		chains(2),
 		chains(3),
+		tinyChords(),
 	}
 	if tier == "thorough" {
 		off := oracle.Pt{X: 1000.5, Y: -37.25}
